@@ -595,7 +595,7 @@ theorem splitSep2_join (s : Bytes) :
         | nil => exact absurd hsp hne
         | cons p ps =>
           rw [hsp] at this
-          simp only [List.dropLast_cons₂, List.flatMap_cons, List.nil_append, List.getLast?_cons_cons]
+          simp only [List.dropLast_cons_cons, List.flatMap_cons, List.nil_append, List.getLast?_cons_cons]
           conv => lhs; rw [this]
           simp
       | false =>
@@ -613,8 +613,319 @@ theorem splitSep2_join (s : Bytes) :
               List.nil_append] at this ⊢
             rw [← this]
           | cons q qs =>
-            simp only [List.dropLast_cons₂, List.flatMap_cons, List.getLast?_cons_cons] at this ⊢
+            simp only [List.dropLast_cons_cons, List.flatMap_cons, List.getLast?_cons_cons] at this ⊢
             conv => lhs; rw [this]
             simp
+
+
+/-! ### a malformed entry -/
+
+/-- like `decompose`, with arbitrary text after the records -/
+theorem decompose_tail (todo : List Bytes) (tail buf rest : Bytes) (h : buf ++ rest = T todo ++ tail) :
+    ∃ fin todo2 b, todo = fin ++ todo2 ∧ buf = T fin ++ b ∧ b ++ rest = T todo2 ++ tail ∧
+      (∀ r t, todo2 = r :: t → b.length < r.length + 2) := by
+  induction todo generalizing buf with
+  | nil => exact ⟨[], [], buf, rfl, by simp [T], by simpa [T] using h, by intro r t e; cases e⟩
+  | cons r t ih =>
+    by_cases hlen : buf.length < r.length + 2
+    · exact ⟨[], r :: t, buf, rfl, by simp [T], h, by intro r' t' e; injection e with e1 e2; subst e1; exact hlen⟩
+    · have hn : (r ++ [10, 10]).length ≤ buf.length := by simp; omega
+      have e : T (r :: t) ++ tail = (r ++ [10, 10]) ++ (T t ++ tail) := by rw [T_cons]; simp
+      rw [e] at h
+      have h1 : buf.take (r ++ [10, 10]).length = r ++ [10, 10] := by
+        have := congrArg (List.take (r ++ [10, 10]).length) h
+        rw [List.take_append_of_le_length hn, List.take_left' rfl] at this
+        exact this
+      have h2 : buf.drop (r ++ [10, 10]).length ++ rest = T t ++ tail := by
+        have := congrArg (List.drop (r ++ [10, 10]).length) h
+        rw [List.drop_append_of_le_length hn, List.drop_left' rfl] at this
+        exact this
+      obtain ⟨fin, todo2, b, e1, e2, e3, e4⟩ := ih _ h2
+      refine ⟨r :: fin, todo2, b, by simp [e1], ?_, e3, e4⟩
+      rw [T_cons]
+      have : buf = buf.take (r ++ [10, 10]).length ++ buf.drop (r ++ [10, 10]).length := by simp
+      rw [this, h1, e2]; simp
+
+theorem parseRecords_fail (acc : List Summary) (good : List Bytes) (bad : Bytes) (more : List Bytes)
+    (hg : ∀ r ∈ good, ∃ s, Summary.parse r = .ok s) (hb : ∀ s, Summary.parse bad ≠ .ok s) :
+    parseRecords acc (good ++ bad :: more) = (acc ++ good.map entryOf, false) := by
+  induction good generalizing acc with
+  | nil =>
+    simp only [List.nil_append, parseRecords, List.map_nil, List.append_nil]
+    cases hp : Summary.parse bad with
+    | ok s => exact absurd hp (hb s)
+    | error e => rfl
+  | cons r good ih =>
+    obtain ⟨s, hs⟩ := hg r (by simp)
+    simp only [List.cons_append, parseRecords, hs]
+    rw [ih _ fun x hx => hg x (by simp [hx])]
+    simp [entryOf, hs]
+
+theorem lastSepEnd_ge (x z : Bytes) : ∃ k, lastSepEnd (x ++ 10 :: 10 :: z) = some k ∧ x.length + 2 ≤ k := by
+  have h1 : ∃ k, lastSepEnd (10 :: 10 :: z) = some k ∧ 2 ≤ k := by
+    rw [lastSepEnd_cons]
+    cases hr : lastSepEnd (10 :: z) with
+    | some k' =>
+      have := lastSepEnd_le _ _ hr
+      refine ⟨k' + 1, rfl, ?_⟩
+      -- the inner hit is at least 2 itself (a separator needs two bytes)
+      rw [lastSepEnd_cons] at hr
+      cases hz : lastSepEnd z with
+      | some k'' => simp only [hz, Option.some.injEq] at hr; omega
+      | none =>
+        simp only [hz] at hr
+        split at hr
+        · injection hr with hr; omega
+        · cases hr
+    | none => exact ⟨2, by simp [startsNN], Nat.le_refl _⟩
+  obtain ⟨k, hk, hk2⟩ := h1
+  exact ⟨x.length + k, lastSepEnd_append_some x _ k hk, by omega⟩
+
+theorem splitSep2_T_then (fin : List Bytes) (hclean : ∀ x ∈ fin, Clean x) (bad y' : Bytes) (hbc : Clean bad) :
+    splitSep2 ((T fin ++ bad) ++ 10 :: 10 :: y') = fin ++ bad :: splitSep2 y' := by
+  induction fin with
+  | nil => simpa [T] using splitSep2_record bad y' hbc.ne hbc.last hbc.nosep
+  | cons r fin ih =>
+    have hc := hclean r (by simp)
+    rw [T_cons]
+    have e : (r ++ 10 :: 10 :: T fin ++ bad) ++ 10 :: 10 :: y' = r ++ 10 :: 10 :: ((T fin ++ bad) ++ 10 :: 10 :: y') := by simp
+    rw [e, splitSep2_record r _ hc.ne hc.last hc.nosep, ih fun x hx => hclean x (by simp [hx])]
+    rfl
+
+/-- the write that completes a malformed (but single-block, valid UTF-8) entry fails, and the
+    entries at that point are the collected ones plus the well-formed entries before it -/
+theorem write_fail (st : Stream) (c rest : Bytes) (fin : List Bytes) (bad y : Bytes)
+    (hbuf : st.buf ++ c = T fin ++ (bad ++ 10 :: 10 :: y)) (hfin : ∀ r ∈ fin, GoodRec r)
+    (hbc : Clean bad) (hbp : ∀ s, Summary.parse bad ≠ .ok s)
+    (hutf : Complete ((st.buf ++ c) ++ rest)) :
+    (st.write c).2 = false ∧ (st.write c).1.entries = st.entries ++ fin.map entryOf := by
+  obtain ⟨t1, t2, t3⟩ := prefix_tolerant (st.buf ++ c) rest hutf
+  rw [write_def]
+  generalize hB : st.buf ++ c = B at *
+  have hsearch : lastSepEnd (B.take (utf8 B).1) = lastSepEnd B := by
+    have := lastSepEnd_append_clean (B.take (utf8 B).1) (B.drop (utf8 B).1) (by
+      intro hm; exact t3 10 hm rfl)
+    rw [List.take_append_drop] at this
+    exact this.symm
+  have hBx : B = (T fin ++ bad) ++ 10 :: 10 :: y := by rw [hbuf]; simp
+  obtain ⟨k, hk, hkge⟩ := lastSepEnd_ge (T fin ++ bad) y
+  rw [← hBx] at hk
+  rw [hsearch, hk]
+  simp only
+  have hkv : k ≤ (utf8 B).1 := by
+    have h1 : lastSepEnd (B.take (utf8 B).1) = some k := by rw [hsearch, hk]
+    have := lastSepEnd_le _ _ h1
+    simp only [List.length_take] at this
+    omega
+  have hkB : k ≤ B.length := lastSepEnd_le _ _ hk
+  have htake : (B.take (utf8 B).1).take k = (T fin ++ bad) ++ 10 :: 10 :: (y.take (k - ((T fin ++ bad).length + 2))) := by
+    rw [List.take_take, Nat.min_eq_left hkv, hBx]
+    rw [List.take_append, List.take_of_length_le (by omega)]
+    congr 1
+    have : k - (T fin ++ bad).length = (k - ((T fin ++ bad).length + 2)) + 2 := by omega
+    rw [this]
+    rfl
+  have hclean : ∀ x ∈ fin, Clean x := fun x hx => (hfin x hx).clean
+  have hsplit := splitSep2_T_then fin hclean bad (y.take (k - ((T fin ++ bad).length + 2))) hbc
+  -- dropping a trailing empty piece never removes `bad`
+  have hterm : ∃ more, splitTerminator ((B.take (utf8 B).1).take k) = fin ++ bad :: more := by
+    rw [htake]
+    unfold splitTerminator
+    simp only [hsplit]
+    have hne := splitSep2_ne_nil (y.take (k - ((T fin ++ bad).length + 2)))
+    generalize splitSep2 (y.take (k - ((T fin ++ bad).length + 2))) = ps at hne
+    have hl : (fin ++ bad :: ps).getLast? = ps.getLast? := by
+      cases ps with
+      | nil => exact absurd rfl hne
+      | cons p ps' =>
+        obtain ⟨x, hx⟩ : ∃ x, (p :: ps').getLast? = some x := by
+          cases h : (p :: ps').getLast? with
+          | none => simp at h
+          | some x => exact ⟨x, rfl⟩
+        simp [List.getLast?_append, List.getLast?_cons_cons, hx]
+    rw [hl]
+    split
+    · exact ⟨ps.dropLast, by
+        cases ps with
+        | nil => exact absurd rfl hne
+        | cons p ps' => rw [List.dropLast_append_cons, List.dropLast_cons_cons]⟩
+    · exact ⟨ps, rfl⟩
+  obtain ⟨more, hmore⟩ := hterm
+  rw [hmore, parseRecords_fail _ fin bad more (fun x hx => (hfin x hx).parses) hbp]
+  simp
+
+
+theorem complete_T' (rs : List Bytes) (h : ∀ r ∈ rs, Complete r) : Complete (T rs) := by
+  unfold T
+  rw [List.flatMap_def]
+  apply complete_flatten
+  intro l hl
+  simp only [List.mem_map] at hl
+  obtain ⟨r, hr, rfl⟩ := hl
+  exact complete_append _ _ (h r hr) (complete_ascii _ (by decide))
+
+/-- index of the first write that fails, and the state after it -/
+def firstFail (st : Stream) : List Bytes → Option (Nat × Stream)
+  | [] => none
+  | c :: cs =>
+    if (st.write c).2 then (firstFail (st.write c).1 cs).map fun p => (p.1 + 1, p.2)
+    else some (0, (st.write c).1)
+
+/-- a stream whose first malformed entry is `bad`, preceded by the well-formed `goods` -/
+structure BadStream (goods : List Bytes) (bad tail : Bytes) : Prop where
+  goods : ∀ r ∈ goods, GoodRec r
+  bad_utf8 : Complete bad
+  bad_clean : Clean bad
+  bad_fails : ∀ s, Summary.parse bad ≠ .ok s
+  tail_utf8 : Complete tail
+
+/-- state after `fed` bytes, none of which completed the malformed entry yet -/
+def Inv2 (goods : List Bytes) (bad tail : Bytes) (st : Stream) (rest : Bytes) (fed : Nat) : Prop :=
+  ∃ done todo, goods = done ++ todo ∧ st.entries = done.map entryOf ∧
+    st.buf ++ rest = T (todo ++ [bad]) ++ tail ∧
+    (∀ r t, todo ++ [bad] = r :: t → st.buf.length < r.length + 2) ∧
+    fed = (T done).length + st.buf.length
+
+theorem T_length_append (a b : List Bytes) : (T (a ++ b)).length = (T a).length + (T b).length := by
+  rw [T_append, List.length_append]
+
+theorem inv2_lt (goods : List Bytes) (bad tail : Bytes) (st : Stream) (rest : Bytes) (fed : Nat)
+    (h : Inv2 goods bad tail st rest fed) : fed < (T (goods ++ [bad])).length := by
+  obtain ⟨done, todo, e1, _, _, e4, e5⟩ := h
+  rw [e1, List.append_assoc, T_length_append, e5]
+  cases htb : todo ++ [bad] with
+  | nil => simp at htb
+  | cons r t =>
+    have := e4 r t htb
+    rw [T_cons]
+    simp only [List.length_append, List.length_cons]
+    omega
+
+theorem inv2_step (goods : List Bytes) (bad tail : Bytes) (hs : BadStream goods bad tail)
+    (st : Stream) (c rest : Bytes) (fed : Nat) (h : Inv2 goods bad tail st (c ++ rest) fed) :
+    ((st.write c).2 = true ∧ Inv2 goods bad tail (st.write c).1 rest (fed + c.length)) ∨
+    ((st.write c).2 = false ∧ (st.write c).1.entries = goods.map entryOf ∧
+      (T (goods ++ [bad])).length ≤ fed + c.length) := by
+  obtain ⟨done, todo, e1, e2, e3, e4, e5⟩ := h
+  have hgt : ∀ r ∈ todo, GoodRec r := fun r hr => hs.goods r (by rw [e1]; simp [hr])
+  have hcl : ∀ r ∈ todo ++ [bad], Clean r := by
+    intro r hr
+    rcases List.mem_append.mp hr with h | h
+    · exact (hgt r h).clean
+    · simp only [List.mem_singleton] at h; subst h; exact hs.bad_clean
+  have hcomp : ∀ r ∈ todo ++ [bad], Complete r := by
+    intro r hr
+    rcases List.mem_append.mp hr with h | h
+    · exact (hgt r h).utf8
+    · simp only [List.mem_singleton] at h; subst h; exact hs.bad_utf8
+  rw [← List.append_assoc] at e3
+  have hutf : Complete ((st.buf ++ c) ++ rest) := by
+    rw [e3]; exact complete_append _ _ (complete_T' _ hcomp) hs.tail_utf8
+  obtain ⟨fin, todo2, b, d1, d2, d3, d4⟩ := decompose_tail (todo ++ [bad]) tail (st.buf ++ c) rest e3
+  have hfed : fed + c.length = (T done).length + (st.buf ++ c).length := by
+    rw [e5, List.length_append]; omega
+  cases todo2 with
+  | nil =>
+    -- this write completes the malformed entry
+    right
+    simp only [List.append_nil] at d1
+    have hbuf : st.buf ++ c = T todo ++ (bad ++ 10 :: 10 :: b) := by
+      rw [d2, ← d1, T_append, T_cons]; simp [T]
+    obtain ⟨f1, f2⟩ := write_fail st c rest todo bad b hbuf hgt hs.bad_clean hs.bad_fails hutf
+    refine ⟨f1, ?_, ?_⟩
+    · rw [f2, e2, e1]; simp
+    · rw [hfed, e1, List.append_assoc, T_length_append, d2, ← d1, List.length_append]
+      omega
+  | cons r2 t2 =>
+    left
+    -- fin is a prefix of todo: the malformed entry is not completed yet
+    have hlast : (r2 :: t2).getLast (by simp) = bad := by
+      have : (todo ++ [bad]).getLast (by simp) = bad := by simp
+      have h2 : (fin ++ r2 :: t2).getLast (by simp) = bad := by
+        have := this
+        simp only [d1] at this
+        exact this
+      rw [List.getLast_append_of_ne_nil (by simp)] at h2
+      exact h2
+    have htodo : todo = fin ++ (r2 :: t2).dropLast := by
+      have := congrArg List.dropLast d1
+      rw [List.dropLast_concat, List.dropLast_append_cons] at this
+      exact this
+    have hfin : ∀ r ∈ fin, GoodRec r := fun r hr => hgt r (by rw [htodo]; simp [hr])
+    have hc2 : Clean r2 := hcl r2 (by rw [d1]; simp)
+    have hl := d4 r2 t2 rfl
+    have hpre : b ++ ((r2 ++ [10, 10]).drop b.length) = r2 ++ [10, 10] := by
+      have e : T (r2 :: t2) ++ tail = (r2 ++ [10, 10]) ++ (T t2 ++ tail) := by rw [T_cons]; simp
+      rw [e] at d3
+      have hbl : b.length ≤ (r2 ++ [10, 10]).length := by simp; omega
+      have hb2 : b = (r2 ++ [10, 10]).take b.length := by
+        have := congrArg (List.take b.length) d3
+        rw [List.take_left' rfl, List.take_append_of_le_length hbl] at this
+        exact this
+      conv => lhs; lhs; rw [hb2]
+      exact List.take_append_drop _ _
+    have hb := strict_prefix_clean r2 b _ hc2 hpre hl
+    have hw := write_eval st c rest fin b d2 hfin hb.1 hb.2 hutf
+    rw [hw]
+    refine ⟨rfl, done ++ fin, (r2 :: t2).dropLast, ?_, ?_, ?_, ?_, ?_⟩
+    · rw [e1, htodo]; simp
+    · simp [e2]
+    · simp only
+      rw [d3]
+      congr 2
+      rw [← hlast]
+      exact (List.dropLast_concat_getLast (by simp)).symm
+    · intro r t hrt
+      simp only
+      have : (r2 :: t2).dropLast ++ [bad] = r2 :: t2 := by
+        rw [← hlast]; exact List.dropLast_concat_getLast (by simp)
+      rw [this] at hrt
+      injection hrt with h1 h2
+      subst h1
+      exact hl
+    · simp only
+      rw [hfed, d2, T_length_append, List.length_append]
+      omega
+
+
+theorem inv2_init (goods : List Bytes) (bad tail : Bytes) :
+    Inv2 goods bad tail Stream.init (T (goods ++ [bad]) ++ tail) 0 :=
+  ⟨[], goods, rfl, rfl, by simp [Stream.init], by
+    intro r t h; simp [Stream.init], by simp [Stream.init, T]⟩
+
+/-- **the malformed-entry clause**: whatever the chunking, writes succeed until the one whose
+    bytes complete the malformed entry; that write fails, and the entries collected at that
+    point are exactly the well-formed entries before it -/
+theorem firstFail_chunks (goods : List Bytes) (bad tail : Bytes) (hs : BadStream goods bad tail)
+    (st : Stream) (cs : List Bytes) (fed : Nat) (h : Inv2 goods bad tail st cs.flatten fed) :
+    ∃ i st', firstFail st cs = some (i, st') ∧ st'.entries = goods.map entryOf ∧
+      fed + (cs.take i).flatten.length < (T (goods ++ [bad])).length ∧
+      (T (goods ++ [bad])).length ≤ fed + (cs.take (i + 1)).flatten.length := by
+  induction cs generalizing st fed with
+  | nil =>
+    -- impossible: with nothing left to feed, the malformed entry would have to be incomplete
+    exfalso
+    obtain ⟨done, todo, _, _, e3, e4, _⟩ := h
+    simp only [List.flatten_nil, List.append_nil] at e3
+    cases htb : todo ++ [bad] with
+    | nil => simp at htb
+    | cons r t =>
+      have := e4 r t htb
+      rw [e3, htb, T_cons] at this
+      simp only [List.length_append, List.length_cons] at this
+      omega
+  | cons c cs ih =>
+    simp only [List.flatten_cons] at h
+    have hlt := inv2_lt goods bad tail st _ fed h
+    rcases inv2_step goods bad tail hs st c cs.flatten fed h with ⟨ok, inv⟩ | ⟨bad1, ents, hge⟩
+    · obtain ⟨i, st', hf, he, h1, h2⟩ := ih (st.write c).1 (fed + c.length) inv
+      refine ⟨i + 1, st', ?_, he, ?_, ?_⟩
+      · simp [firstFail, ok, hf]
+      · simp only [List.take_succ_cons, List.flatten_cons, List.length_append]; omega
+      · simp only [List.take_succ_cons, List.flatten_cons, List.length_append]; omega
+    · refine ⟨0, (st.write c).1, ?_, ents, ?_, ?_⟩
+      · simp [firstFail, bad1]
+      · simpa using hlt
+      · simpa using hge
 
 end L
